@@ -750,6 +750,93 @@ class FpTrack(Job):
 
 JOB_KINDS["fptrack"] = FpTrack
 
+
+def const_exact(e, c, t):
+    """exact output of view `e` (over Echo) after t+1 copies of the constant c > 0 (None = not reported yet)"""
+    nm = e[0]
+    n = gen.window_of(e)
+    k = t + 1
+    if nm in ("sma", "ema"):
+        return c if k >= n else None
+    if nm in ("alma", "min", "max", "lagf"):
+        return c
+    if nm == "cum":
+        return c * min(k, n)
+    if nm in ("wo", "vsct"):
+        return F(0) if k >= n - 1 else None
+    if nm == "cti":
+        return F(0) if k >= n else None     # while the window fills CTI correlates a zero-padded window: not 0
+    if nm in ("hln", "roc", "cog", "bent", "wroll", "drawdown"):
+        return F(0)
+    if nm == "net":
+        return F(0) if (k >= 2 and n >= 2) else None
+    if nm == "lnret":
+        return F(0) if k >= 2 else None
+    raise KeyError(nm)
+
+
+class FpConst(Job):
+    """a long constant stream at f64 against the closed-form exact answer: |f - exact| <= eps * scale at EVERY step"""
+    kind = "fpconst"
+
+    def __init__(self, e, c, L, eps):
+        self.e, self.c, self.L, self.eps = e, c, L, eps
+        self.fam = "long_constant"
+
+    def impl_rel_cases(self):
+        return [Case("f", gen.render(self.e, "f"), ["X " + enc_f(self.c)] * self.L)]
+
+    def decide(self, impl, rel, model):
+        lines = rel[0]
+        sk = C16_SCALE.get(self.e[0], "value")
+        scale = float(self.c) if sk in ("value", "cog", "roc", "vst") else float(sk)
+        if self.e[0] == "cum":
+            scale = float(self.c) * gen.window_of(self.e)
+        if self.e[0] == "cog":
+            scale = float(gen.window_of(self.e))
+        if self.e[0] == "roc":
+            scale = 100.0
+        if len(lines) != self.L:
+            return dict(explanation="run stopped after %d of %d values: %s" % (len(lines), self.L, lines[-1:]), expected="no panic", actual=str(lines[-1:]))
+        n = gen.window_of(self.e)
+        steady = const_exact(self.e, self.c, n + 2)
+        steady_line = None
+        for t, l in enumerate(lines):
+            if t > n + 2 and l == steady_line:
+                continue          # same bytes as a line already accepted in the steady regime
+            ex = const_exact(self.e, self.c, t) if t <= n + 2 else steady
+            if l[0] == "N":
+                if ex is not None:
+                    return dict(explanation="step %d: no output, exact run has %s" % (t + 1, ex), expected=float(ex), actual=None)
+                continue
+            if l[0] != "S":
+                return dict(explanation="step %d: %s" % (t + 1, l), expected="value", actual=l)
+            if ex is None:
+                continue   # readiness is C08's business
+            v = dec_f(l[2:])
+            if t > n + 2 and not (v != v or abs(v - float(ex)) > self.eps * scale):
+                steady_line = l
+            if v != v or abs(v - float(ex)) > self.eps * scale:
+                return dict(explanation="step %d of a constant stream of %s: f64 result %r is further than %g x scale (%g) from the exact result %r"
+                            % (t + 1, self.c, v, self.eps, scale, float(ex)), expected=float(ex), actual=v)
+        return None
+
+    def nontrivial_key(self, impl):
+        return (gen.render(self.e, "q"), str(self.c), self.L)
+
+    def to_json(self):
+        return dict(kind=self.kind, e=jexpr(self.e), c=str(self.c), L=self.L, eps=self.eps)
+
+    @staticmethod
+    def from_json(d):
+        return FpConst(uexpr(d["e"]), F(d["c"]), d["L"], d["eps"])
+
+    def shrink_candidates(self):
+        return [FpConst(self.e, self.c, self.L // 2, self.eps)] if self.L > 2000 else []
+
+
+JOB_KINDS["fpconst"] = FpConst
+
 # natural scale of each view's output: 'value' = largest input magnitude, otherwise the width of its range
 C16_SCALE = dict(sma="value", ema="value", alma="value", cum="value", min="value", max="value", wo="value", wroll="value",
                  lagf="value", ss="value", roof="value", cc="value", rsi=100, myrsi=2, hln=2, cti=2, net=2, vsct=2, vst="vst",
@@ -789,6 +876,20 @@ def jobs_C16(rng, tier):
             Lr = (10 ** 4 if tier == "thorough" else 2000) if nm in ("wroll", "drawdown", "lnret") else 60
             xs = three_decades(rng, Lr, signed=nm not in ("drawdown", "lnret"))
             js.append(FpTrack(e, xs, 1e-6, C16_SCALE[nm], fam="three_decades"))
+    # long CONSTANT streams: the exact answer is known in closed form, so only the f64 run is needed (10^6 values)
+    for nm in ("wroll", "drawdown", "lnret"):
+        for it in range(scale_n(tier, 2, 6)):
+            c = F(rng.choice([8001, 6222, 802, 7997, 26, 9877]), 8) + F(rng.randrange(1, 2 ** 20), 2 ** 30)
+            js.append(FpConst(mk(nm, ECHO, []), c, scale_n(tier, 1000000, 1000000), 1e-6))
+        # and one long small-spread stream against the exact run
+        c = F(rng.choice([8001, 802, 9877]), 8) + F(rng.randrange(1, 2 ** 20), 2 ** 30)
+        js.append(FpTrack(mk(nm, ECHO, []), [c + F(rng.randint(0, 2), 8) for _ in range(scale_n(tier, 60000, 1000000))], 1e-6,
+                          C16_SCALE[nm], fam="long_small_spread"))
+    for nm in ("sma", "ema", "alma", "cum", "min", "max", "wo", "vsct", "hln", "roc", "cti", "net", "cog", "lagf", "bent"):
+        n = rng.randint(2, 12)
+        e = rec_expr(rng, nm, n) if nm == "lagf" else mk(nm, ECHO, gen.gen_params(rng, nm, 12, n=n))
+        c = F(rng.choice([8001, 6222, 802, 26]), 8) + F(rng.randrange(1, 2 ** 20), 2 ** 30)
+        js.append(FpConst(e, c, scale_n(tier, 100000, 1000000), 1e-6))
     # volatile stretch followed by at least a full window of identical values
     flat_expect = ["rsi", "myrsi", "vst", "vsct", "wo", "hln", "cti", "net", "roc", "sma", "ema", "alma", "cum", "min", "max"]
     for nm in flat_expect:
@@ -819,13 +920,14 @@ class Twin(Job):
     def plan(self):
         rng = random.Random(self.noise_seed)
         ops, marks = [], []   # marks: indices of output lines belonging to the main sequence
+        self.repeats = []     # (line of a repeated last(), line of the update's own last()) : must be equal
         clonable = "add" not in gen.tree_names(self.e)
         line = 0
         clone_at = rng.randrange(len(self.xs)) if clonable and self.xs else None
         for t, x in enumerate(self.xs):
             ops.append("X " + enc(self.mode, x)); marks.append(line); line += 1
-            for _ in range(rng.choice([0, 0, 1, 3])):
-                ops.append("L"); line += 1
+            for _ in range(rng.choice([0, 0, 1, 2, 3])):
+                ops.append("L"); self.repeats.append((line, marks[-1])); line += 1
             if clone_at == t:
                 ops.append("K 0"); line += 1
                 # feed the clone something else, then come back: must not affect the original
@@ -852,6 +954,10 @@ class Twin(Job):
         plain, noisy = impl[0], impl[1]
         if any(l.startswith("P") for l in plain) or any(l.startswith("P") for l in noisy):
             return None   # the stream (or the clone's divergent continuation) left the view's domain; C15 covers panics
+        for (r, m0) in self.repeats:
+            if r < len(noisy) and m0 < len(noisy) and noisy[r] != noisy[m0]:
+                return dict(explanation="last() called again without an update in between reports something else (output line %d vs %d)" % (r, m0),
+                            expected=noisy[m0], actual=noisy[r])
         for k, m in enumerate(marks):
             if m >= len(noisy) or k >= len(plain) or noisy[m] != plain[k]:
                 return dict(explanation="step %d: output differs once last() is called repeatedly / a clone is fed other inputs" % (k + 1),
